@@ -175,9 +175,29 @@ func lookupRootObligations(w *World, ru *Rule) {
 			case treeLookup:
 				// receiver must be the tree loaded once by this function
 				recv := site.Common().Args[0]
-				c, isCall := recv.(*ssa.Call)
-				okk := isCall && c.Call.StaticCallee() != nil && c.Call.StaticCallee().Name() == "getRoot"
-				ru.Check("tree used by "+FuncName(fn), w.Pos(in.Pos()), "looks up in the tree this function loaded (fox.getRoot())", okk, valStr(recv))
+				isLoaded := func(v ssa.Value) bool {
+					c, isCall := v.(*ssa.Call)
+					return isCall && c.Call.StaticCallee() != nil && c.Call.StaticCallee().Name() == "getRoot"
+				}
+				okk := isLoaded(recv)
+				why := valStr(recv)
+				if p, isParam := recv.(*ssa.Parameter); isParam && !okk {
+					// a helper that is handed the tree: every caller must pass the tree it loaded
+					idx, ncall, all := paramIndex(fn, p), 0, true
+					for _, caller := range w.FoxFuncs() {
+						eachInstr(caller, func(in2 ssa.Instruction) {
+							if c2, ok := in2.(ssa.CallInstruction); ok && c2.Common().StaticCallee() == fn && idx >= 0 && idx < len(c2.Common().Args) {
+								ncall++
+								if !isLoaded(c2.Common().Args[idx]) {
+									all = false
+								}
+							}
+						})
+					}
+					okk = ncall > 0 && all
+					why = fmt.Sprintf("parameter %s, %d caller(s), each passes the tree it loaded: %v", p.Name(), ncall, all)
+				}
+				ru.Check("tree used by "+FuncName(fn), w.Pos(in.Pos()), "looks up in the tree this function loaded (fox.getRoot())", okk, why)
 			}
 		})
 	}
